@@ -243,6 +243,16 @@ def check(case):
                 arr2 = np.asarray(sol(q2), dtype=np.float64)
                 if arr2.shape != q2.shape + shape or not np.array_equal(arr2.reshape((-1,) + shape), arr[:q2.size]):
                     viols.append(V("array_query_shape", "2-D query of shape {} gives shape {} / values differing from the flat query".format(q2.shape, arr2.shape), fam, **attrs))
+            # whole-numbered times inside the range, asked for as an integer array (sol(np.arange(...)))
+            lo, hi = int(np.ceil(min(t[0], t[-1]))), int(np.floor(max(t[0], t[-1])))
+            if not viols and hi - lo >= 1 and hi - lo <= 4000 and a.t[0].dtype == np.float64:
+                qi = np.unique(np.linspace(lo, hi, min(hi - lo + 1, 16)).astype(np.int64))
+                arri = np.asarray(sol(qi), dtype=np.float64)
+                labels.append("integer_query_array")
+                for i, tt in enumerate(qi):
+                    if arri.shape != qi.shape + shape or not np.array_equal(arri[i], query(float(tt))):
+                        viols.append(V("array_vs_scalar", "sol(int64 array)[{}] differs from sol({!r}) (shape {})".format(i, float(tt), arri.shape), fam, direction="backward" if backward else "forward", query="int", **attrs))
+                        break
         except Exception as e:
             if exc_origin(e)[0] == "harness":
                 raise
